@@ -246,6 +246,18 @@ def strip(s, events=False):
 
 def run_mc(prop, tier, seed, res):
     """Design-level model checking that backs the property (module MC_Solver)."""
+    if prop == "C13":
+        k = 40 if tier == "quick" else 1500
+        r = tlc.run("MC_Transform", env={"GEN_K": k, "GEN_FAMILY": "perm", "GEN_OUT": "x"},
+                    args=["-seed", str(seed * 31 + 13)], timeout=7200)
+        if r.timed_out:
+            raise common.MachineryError("MC_Transform timed out")
+        if not r.ok:
+            res.add_violation("MC_Transform (ValuesCommute): " + "; ".join(r.errors)[:300],
+                              {"kind": "mc", "property": "C13", "module": "MC_Transform", "k": k, "seed": seed,
+                               "family": "perm", "output": r.out[-3000:]})
+        res.notes["MC_Transform.cases"] = k
+        return
     plan = {
         "C03": [("dead", 25, 400)],
         "C06": [("stop", 25, 400)],
